@@ -208,6 +208,7 @@ def check_samples(chk, r, tmp, quick):
     if quick:
         idx = r.permutation(len(combos))[:110]
         combos = [combos[i] for i in sorted(idx)]
+    col_lines, col_keep = [], []
     for j, (K, n, w, flds, flat, nm) in enumerate(combos):
         names = names_sets[nm]
         d, N = len(names), 4
@@ -226,12 +227,23 @@ def check_samples(chk, r, tmp, quick):
         try:
             with h5py.File(p, "w") as f:
                 s.save(f, flat=flat)
+            listed = None
             with h5py.File(p, "r") as f:
                 t = K.load(f)
+                if not flat:
+                    listed = [k.split(".", 1)[1] for k in f["samples"].keys() if k.startswith("samples.")]
             os.remove(p)
         except Exception as e:   # noqa
             chk.fail("a saved sample set reloads", case, repr(e)[:200], {"level": "samples", "clause": "raise", "cls": K.__name__, "exc": type(e).__name__})
             continue
+        if listed is not None and len(set(listed)) == len(names):
+            # the model (`colsByName`, Model/CodecSamples.lean) rebuilds the columns from the dictionary AS LISTED BY THE FILE
+            xs, xt = ns.to_np(s.x), ns.to_np(t.x)
+            got_ids = [next((i for i in range(len(names)) if xt.shape == xs.shape and np.array_equal(xt[:, c], xs[:, i])), -1) for c in range(xt.shape[1])] \
+                if xt.ndim == 2 else None
+            col_lines.append("f64 samplecols " + " ".join([str(len(names))] + [hx(nm) for nm in names] + [str(len(listed))]
+                                                      + [f"{hx(nm)} {names.index(nm)}" for nm in listed]))
+            col_keep.append((case, got_ids))
         bad = []
         if ns.ns_of(t.x) != n:
             bad.append(f"namespace {ns.ns_of(t.x)}")
@@ -258,6 +270,16 @@ def check_samples(chk, r, tmp, quick):
             bad.append("weights")
         if bad:
             chk.fail("a saved sample set reloads to an observationally equal one", case, "; ".join(bad), {"level": "samples", "clause": "equal", "cls": K.__name__, "what": bad})
+    if col_lines:
+        drv = core.LeanDriver()
+        for (case, got_ids), rep in zip(col_keep, drv.batch(col_lines)):
+            if not rep.ok:
+                raise core.HarnessError(rep.err)
+            kind = rep.tok()
+            model_ids = [int(v) for v in rep.rest()] if kind == "some" else None
+            chk.count("samples:column_order_vs_model")
+            if got_ids is not None and model_ids != got_ids:
+                chk.disagree("samplecols", case, model_ids, got_ids)
 
 
 # ----------------------------------------------------------------------------- (3) histories
